@@ -576,6 +576,15 @@ func (w *c14World) step(line string) {
 				h := w.bscHdrs[w.bscNext].ToHeader()
 				cctx, _ := c.GetContext().CacheContext()
 				_ = c.App.XIBCKeeper.ClientKeeper.UpdateClient(cctx, "bsc", &h)
+			case "eth4": // the next header of the chain-id-4 ETH client verified on a dropped context (difficulty calculator at its
+				// floor after the bomb delay, base-fee calculator: go-ethereum's shared *big.Int constants are in reach)
+				if w.eth4On < 0 {
+					return
+				}
+				c := w.ch[w.eth4On]
+				h := c14EthHeader(&w.eth4Head, w.eth4Head.Time+12)
+				cctx, _ := c.GetContext().CacheContext()
+				_ = c.App.XIBCKeeper.ClientKeeper.UpdateClient(cctx, "eth4", &h)
 			case "tmupd": // a Tendermint client update on a dropped context
 				if w.path == nil {
 					return
@@ -1110,7 +1119,7 @@ func c14Script(r *Rec, n int, eth int) []string {
 	s = append(s, "clients")
 	// wall clock: an ETH client (chain id 4) dated relative to the run's T0; `ethnow` is delivered by twin a before and
 	// by twin b after the instant at which a time.Now()-based future-block check would start to accept the header
-	s = append(s, "eth4new 0", "ethold", "ethnow 0", "ethold")
+	s = append(s, "eth4new 0", "ethold", "ethnow 0", fmt.Sprintf("discard %s eth4", []string{"a", "b"}[rng.Intn(2)]), "ethold")
 	r.Count("op.ethnow")
 	ethLeft := eth
 	ethNew := false
